@@ -28,7 +28,7 @@ CONFIG = {
 
 }
 
-ITER_ALLOWED = [r'^external_body pub fn (new|f32_mul)', r'^assume_specification pub assume_specification<T> \[<\[T\]>',
+ITER_ALLOWED = [r'^external_body pub fn (new|f32_mul)', r'^external_body (pub )?fn new', r'^assume_specification pub assume_specification<T> \[<\[T\]>',
                 r'^uninterp spec pub uninterp spec fn (class7|tables_ok|f32_mul_spec)', r'^broadcast axiom|^axiom pub broadcast axiom fn axiom_card_key_model']
 ITER_ASSUME = [
     DERIVE,
